@@ -1,5 +1,6 @@
 import Pms.Props.C15
 import Pms.Props.C15F
+import Pms.Props.C15Mod
 
 #print axioms Pms.Vec.C15_pr_def
 #print axioms Pms.Vec.C15_pr_spec
@@ -23,3 +24,5 @@ import Pms.Props.C15F
 #print axioms Pms.Vec.C15_fft_corr_def
 #print axioms Pms.Vec.C15_fft_corr_log_def
 #print axioms Pms.Vec.C15_fft_corr_zero_lag
+#print axioms Pms.ModShape.C15_module_shape
+#print axioms Pms.ModShape.C15_body_shape
